@@ -2,7 +2,7 @@
 //!
 //! Real code executed: `buf::advance_slices`, `buf::write_all_vectored` (SmallVec collect/extend, IoSlice).
 use metrique_writer_format_emf::verif_hooks as hooks;
-use smallvec::{SmallVec, smallvec};
+use smallvec::SmallVec;
 use std::io;
 
 const SL: usize = 3; // max bytes per slice
@@ -156,9 +156,10 @@ impl io::Write for ScriptedWriter<'_> {
     }
 }
 
-fn any_act() -> Act {
+/// `mask`: bit 0 = Accept allowed, bit 1 = Interrupted allowed, bit 2 = Hard allowed
+fn any_act(mask: u8) -> Act {
     let k: u8 = kani::any();
-    kani::assume(k < 3);
+    kani::assume(k < 3 && (mask >> k) & 1 == 1);
     match k {
         0 => {
             let n: usize = kani::any();
@@ -170,30 +171,12 @@ fn any_act() -> Act {
     }
 }
 
-// @check C16 quick timeout=2400 mem=30
-// @encodes buf::write_all_vectored, buf::advance_slices, smallvec collect/extend, std::io::IoSlice
-// @bounds 3 buffers of symbolic length 0..=3 and symbolic bytes (at least one byte in total); writer script of up to 3 calls, each symbolically: accept k bytes (any k incl. 0 and more than offered), Interrupted, or a hard error; the 4th call (if reached) accepts everything
-// @oracle at EVERY call the buffers offered are exactly the suffix of the record starting at the number of bytes accepted so far (length and symbolic-index byte check) - nothing duplicated or omitted however writes are split; Ok => every byte accepted; zero-length write => WriteZero error; hard error => surfaced, no further calls; Interrupted => retried
-// @outside more than 3 buffers per line (the formatter uses 3 or 5); multi-line records in finish()
-#[kani::proof]
-#[kani::unwind(5)]
-pub fn write_all_vectored_never_tears() {
+fn vectored(script: [Act; 4]) -> (bool, bool, usize) {
     let t = Three::any();
     kani::assume(t.total() >= 1);
-    let bufs: SmallVec<[&[u8]; 3]> = smallvec![t.slice(0), t.slice(1), t.slice(2)];
-    let mut w = ScriptedWriter {
-        t: &t,
-        script: [any_act(), any_act(), any_act(), Act::Accept(3 * SL)],
-        calls: 0,
-        accepted: 0,
-        saw_zero: false,
-        saw_hard: false,
-        violated: false,
-    };
+    let bufs: SmallVec<[&[u8]; 3]> = SmallVec::from_buf([t.slice(0), t.slice(1), t.slice(2)]);
+    let mut w = ScriptedWriter { t: &t, script, calls: 0, accepted: 0, saw_zero: false, saw_hard: false, violated: false };
     let r = hooks::write_all_vectored(bufs, &mut w);
-    kani::cover!(r.is_ok() && w.calls == 4, "completed after two partial writes and an interruption or three partial writes");
-    kani::cover!(w.saw_zero, "zero-length write");
-    kani::cover!(w.saw_hard && w.calls == 2, "hard error on the second call");
     assert!(!w.violated, "every call is offered exactly the unwritten suffix");
     match &r {
         Ok(()) => {
@@ -209,5 +192,35 @@ pub fn write_all_vectored_never_tears() {
             }
         }
     }
+    let out = (w.saw_zero, w.saw_hard, w.calls);
     core::mem::forget(r);
+    out
+}
+
+// @check C16 quick timeout=2400 mem=24
+// @encodes buf::write_all_vectored, buf::advance_slices, smallvec collect/extend, std::io::IoSlice
+// @bounds 3 buffers of symbolic length 0..=3 and symbolic bytes (at least one byte in total); the writer accepts a solver-chosen number of bytes (any k incl. 0 and more than offered) on each of its first two calls, everything on the third
+// @oracle at EVERY call the buffers offered are exactly the suffix of the record starting at the number of bytes accepted so far (length and symbolic-index byte check) - nothing duplicated or omitted however writes are split; Ok => every byte accepted exactly once; a zero-length write => WriteZero error and no further call
+// @stubs smallvec::SmallVec::try_grow (asserts the inline capacity suffices: never spills)
+// @outside more than 3 buffers per line (the formatter uses 3 or 5); multi-line records in finish()
+#[kani::proof]
+#[kani::unwind(5)]
+#[kani::stub(smallvec::SmallVec::try_grow, crate::stubs::smallvec_try_grow)]
+pub fn write_all_vectored_partial_writes() {
+    let (zero, _hard, calls) = vectored([any_act(1), any_act(1), Act::Accept(3 * SL), Act::Accept(3 * SL)]);
+    kani::cover!(!zero && calls == 3, "completed after two partial writes");
+    kani::cover!(zero, "zero-length write");
+}
+
+// @check C16 quick timeout=2400 mem=24
+// @encodes buf::write_all_vectored (Interrupted retry and hard-error arms), buf::advance_slices
+// @bounds same buffers; first call: Interrupted or a hard error; second call: Interrupted, a hard error or accept any k; then accept everything
+// @oracle an interrupted call is retried with exactly the same unwritten suffix (nothing duplicated); a hard error is surfaced unchanged and ends the calls; otherwise as write_all_vectored_partial_writes
+#[kani::proof]
+#[kani::unwind(5)]
+#[kani::stub(smallvec::SmallVec::try_grow, crate::stubs::smallvec_try_grow)]
+pub fn write_all_vectored_interrupts_and_errors() {
+    let (_zero, hard, calls) = vectored([any_act(6), any_act(7), Act::Accept(3 * SL), Act::Accept(3 * SL)]);
+    kani::cover!(!hard && calls >= 3, "completed after an interruption");
+    kani::cover!(hard && calls == 2, "hard error on the second call");
 }
